@@ -2299,3 +2299,253 @@ Proof.
   destruct (invM_run cf tr) as (M1 & M2 & _). rewrite M1, M2.
   pose proof (filter_length_le' (fun e : N * N * list entry * bool => negb (snd e)) (completed (run cf tr))). lia.
 Qed.
+
+(* ==== the root gate's bounded command channel; Drop for Link (bst / bstep in GateModel.v) ==== *)
+
+From Coq Require Import PeanoNat.
+
+Lemma rootq_note_step s : rootq (note_step s) = rootq s.
+Proof. destruct (note_step_shape s) as (cl & rt & rn & ->). reflexivity. Qed.
+
+Lemma rootq_root_handle s c : rootq (root_handle s c) = rootq s.
+Proof.
+  destruct c as [l|x|x [|]|c|c| |l]; cbn [root_handle]; try reflexivity.
+  - destruct (m_find x (upd s)); reflexivity.
+  - destruct (m_find x (sus s)); reflexivity.
+Qed.
+
+(* the root takes at most one command off the FIFO per step, and none inside notify_clones *)
+Lemma rootq_step_root cf s :
+  rootq (step cf s ARoot) = rootq s \/
+  (rnote s = [] /\ exists c, rootq s = c :: rootq (step cf s ARoot)).
+Proof.
+  cbn [step]. destruct (root_term s || root_dropped s); [left; reflexivity|].
+  destruct (rnote s) as [|n rn] eqn:Hn.
+  - destruct (rootq s) as [|c q] eqn:Hq; [left; exact Hq|].
+    right. split; [reflexivity|]. exists c. rewrite rootq_root_handle. reflexivity.
+  - left. apply rootq_note_step.
+Qed.
+
+Lemma rootq_step_root_note cf s : rnote s <> [] -> rootq (step cf s ARoot) = rootq s.
+Proof.
+  intros Hn. destruct (rootq_step_root cf s) as [H|[H _]]; [exact H|contradiction].
+Qed.
+
+(* every other action leaves the length of the FIFO or puts one command at its end *)
+Lemma rootq_step_len cf s a : a <> ARoot ->
+  length (rootq (step cf s a)) = length (rootq s) \/ length (rootq (step cf s a)) = S (length (rootq s)).
+Proof.
+  intros Ha. destruct a; try contradiction; cbn [step].
+  - destruct (links s l); try (left; reflexivity).
+    destruct (root_dropped s); [left; reflexivity|]. right. cbn. rewrite app_length. cbn. lia.
+  - destruct (links s l); try (left; reflexivity).
+    destruct (is_direct l); right; cbn; rewrite app_length; cbn; lia.
+  - destruct (links s l); try (left; reflexivity).
+    destruct (eqb b susp); [left; reflexivity|]. right. cbn. rewrite app_length. cbn. lia.
+  - destruct (links s l); try (left; reflexivity).
+    destruct (is_direct l); [left; reflexivity|].
+    destruct (ch_q (chans s s0)) as [|[p n] q]; left; reflexivity.
+  - right. cbn. rewrite app_length. cbn. lia.
+  - destruct (pub_idle s 0); left; reflexivity.
+  - right. cbn. rewrite app_length. cbn. lia.
+  - destruct (c_alive (clones s c) && negb (c_term (clones s c))); [|left; reflexivity].
+    destruct (c_q (clones s c)) as [|x q].
+    + destruct (root_dropped s); left; reflexivity.
+    + left. destruct x as [e|y|]; cbn [clone_handle]; try destruct (cf_follow cf); reflexivity.
+  - destruct (c_alive (clones s c) && pub_idle s c && negb (c =? 0)); [|left; reflexivity].
+    right. cbn. rewrite app_length. cbn. lia.
+  - destruct (pubs s p); [|left; reflexivity]. destruct (pub_alive s p); left; reflexivity.
+  - destruct (pubs s p) as [|n snap [|[x l] rest] sent]; try (left; reflexivity).
+    destruct (negb (ch_rx (chans s x))); [left; reflexivity|].
+    destruct (is_direct l); [left; reflexivity|].
+    destruct (N.of_nat (length (ch_q (chans s x))) <? cf_cap cf); left; reflexivity.
+  - destruct (pubs s p) as [|n snap [|e rest] sent]; left; reflexivity.
+  - left; reflexivity.
+  - destruct (links s l); left; reflexivity.
+  - destruct (links s l); try (left; reflexivity).
+    + left. cbn. rewrite map_length. reflexivity.
+    + destruct (cf_guard cf); destruct (is_direct l); cbn; rewrite ?app_length; cbn; (left; reflexivity) || (right; lia).
+Qed.
+
+Lemma action_eq_root (a : action) : a = ARoot \/ a <> ARoot.
+Proof. destruct a; (left; reflexivity) || (right; discriminate). Qed.
+
+Definition binv (b : bst) : Prop :=
+  (b_in b <= length (rootq (b_st b)))%nat /\ (b_in b <= qcap)%nat.
+
+Lemma b_after_send_inv b s' :
+  binv b ->
+  (length (rootq s') = length (rootq (b_st b)) \/ length (rootq s') = S (length (rootq (b_st b)))) ->
+  binv (b_after_send b s').
+Proof.
+  intros [H1 H2] Hl. unfold b_after_send, b_room, binv.
+  destruct (Nat.ltb_spec (length (rootq (b_st b))) (length (rootq s'))) as [Hlt|Hge]; cbn [andb].
+  - destruct (Nat.eqb_spec (b_in b) (length (rootq (b_st b)))) as [He|Hne]; cbn [andb].
+    + destruct (Nat.ltb_spec (b_in b) qcap) as [Hq|Hq]; cbn [b_st b_in]; split; lia.
+    + cbn [b_st b_in]. split; lia.
+  - cbn [b_st b_in]. split; lia.
+Qed.
+
+Lemma bstep_inv cf b a : binv b -> binv (bstep cf b a).
+Proof.
+  intros Hb. pose proof Hb as [H1 H2].
+  destruct a as [a| |l|l]; cbn [bstep].
+  - destruct (action_eq_root a) as [->|Ha].
+    + cbv zeta. destruct (root_term (b_st b) || root_dropped (b_st b)); [exact Hb|].
+      destruct (rnote (b_st b)) as [|n rn] eqn:Hn.
+      * destruct (b_in b) as [|k] eqn:Hk; [rewrite <- Hk in *; exact Hb|].
+        destruct (rootq_step_root cf (b_st b)) as [He|[_ [c He]]]; unfold binv; cbn [b_st b_in].
+        -- rewrite He. split; lia.
+        -- rewrite He in H1. cbn [length] in H1. split; lia.
+      * unfold binv; cbn [b_st b_in]. rewrite rootq_step_root_note; [split; lia|rewrite Hn; discriminate].
+    + assert (Hs : bstep cf b (BAct a) = b_after_send b (step cf (b_st b) a)) by (destruct a; try reflexivity; contradiction).
+      cbn [bstep] in Hs. rewrite Hs. apply b_after_send_inv; [exact Hb|]. apply rootq_step_len; exact Ha.
+  - destruct (Nat.ltb_spec (b_in b) (length (rootq (b_st b)))) as [Hl|Hl]; cbn [andb]; [|exact Hb].
+    destruct (Nat.ltb_spec (b_in b) qcap) as [Hq|Hq]; [|exact Hb].
+    unfold binv; cbn [b_st b_in]. split; lia.
+  - apply b_after_send_inv; [exact Hb|]. apply rootq_step_len; discriminate.
+  - cbv zeta. destruct (b_room b).
+    + apply b_after_send_inv; [exact Hb|]. apply rootq_step_len; discriminate.
+    + unfold binv; cbn [b_st b_in]. split; [|exact H2]. exact H1.
+Qed.
+
+(* the channel never holds more than COMMAND_QUEUE_LEN commands, and what it holds is the head of the FIFO *)
+Lemma binv_init : binv binit.
+Proof. unfold binv, binit, qcap; cbn. split; lia. Qed.
+
+Lemma brun_from_inv cf tr : forall b, binv b -> binv (brun_from cf b tr).
+Proof.
+  induction tr as [|a tr IH]; intros b Hb; [exact Hb|].
+  unfold brun_from in *. cbn [fold_left]. apply IH. apply bstep_inv. exact Hb.
+Qed.
+
+Theorem root_channel_bounded cf tr :
+  (b_in (brun cf tr) <= N.to_nat cmd_queue_len)%nat /\
+  (b_in (brun cf tr) <= length (rootq (b_st (brun cf tr))))%nat.
+Proof. destruct (brun_from_inv cf tr binit binv_init) as [H1 H2]. split; assumption. Qed.
+
+(* ---- refinement: a schedule of the bounded gate in which every sender waits for room is a schedule of the
+   gate model with its one FIFO (waiting senders included) ---- *)
+Lemma b_after_send_st b s' : b_st (b_after_send b s') = s'.
+Proof. unfold b_after_send. destruct (_ && _); reflexivity. Qed.
+
+Lemma bstep_refines cf b a : is_try a = false ->
+  b_st (bstep cf b a) = b_st b \/ b_st (bstep cf b a) = run_from cf (b_st b) (b_abs a).
+Proof.
+  intros Ht. destruct a as [a| |l|l]; try discriminate; cbn [bstep b_abs].
+  - destruct (action_eq_root a) as [->|Ha].
+    + cbv zeta. destruct (root_term (b_st b) || root_dropped (b_st b)); [left; reflexivity|].
+      destruct (rnote (b_st b)); [destruct (b_in b); [left; reflexivity|right; reflexivity]|right; reflexivity].
+    + right. assert (Hs : bstep cf b (BAct a) = b_after_send b (step cf (b_st b) a)) by (destruct a; try reflexivity; contradiction).
+      cbn [bstep] in Hs. rewrite Hs. apply b_after_send_st.
+  - left. destruct (_ && _); reflexivity.
+  - right. apply b_after_send_st.
+Qed.
+
+Lemma run_from_app cf s t1 t2 : run_from cf s (t1 ++ t2) = run_from cf (run_from cf s t1) t2.
+Proof. unfold run_from. apply fold_left_app. Qed.
+
+Lemma brun_from_refines cf tr : waits_only tr = true ->
+  forall b, exists tr', b_st (brun_from cf b tr) = run_from cf (b_st b) tr'.
+Proof.
+  induction tr as [|a tr IH]; intros Hw b.
+  - exists []. reflexivity.
+  - cbn [waits_only forallb] in Hw. apply andb_prop in Hw as [Ha Hw]. apply negb_true_iff in Ha.
+    unfold brun_from in *. cbn [fold_left].
+    destruct (IH Hw (bstep cf b a)) as [tr' Htr]. rewrite Htr.
+    destruct (bstep_refines cf b a Ha) as [->| ->].
+    + exists tr'. reflexivity.
+    + exists (b_abs a ++ tr'). rewrite run_from_app. reflexivity.
+Qed.
+
+Theorem bounded_gate_refines cf tr : waits_only tr = true ->
+  exists tr', b_st (brun cf tr) = run cf tr'.
+Proof. intros Hw. destruct (brun_from_refines cf tr Hw binit) as [tr' H]. exists tr'. exact H. Qed.
+
+(* ---- what carries over to the gate with the bounded channel, for ALL its schedules: links are dropped
+   (BDropLink) at any fill of the channel, components link again at once ---- *)
+Theorem bounded_at_most_once_in_order cf tr l p :
+  cf_follow cf = false -> cf_guard cf = true -> waits_only tr = true ->
+  strictly_desc (lseqs_of l p (delivered (b_st (brun cf tr)))).
+Proof.
+  intros Hf Hg Hw. destruct (bounded_gate_refines cf tr Hw) as [tr' ->].
+  apply at_most_once_in_order; assumption.
+Qed.
+
+(* a slot in the gate's maps is held by its link, or its Unsubscribe is on its way: inside the channel or in
+   the hands of a sender that waits for room *)
+Theorem dropped_link_slot_given_back cf tr x l :
+  cf_follow cf = false -> cf_guard cf = true -> waits_only tr = true ->
+  In (x, l) (upd (b_st (brun cf tr)) ++ sus (b_st (brun cf tr))) ->
+  holds_slot (links (b_st (brun cf tr)) l) x \/
+  In (CUnsub x) (b_channel (brun cf tr) ++ b_waiting (brun cf tr)).
+Proof.
+  intros Hf Hg Hw. unfold b_channel, b_waiting. rewrite firstn_skipn.
+  destruct (bounded_gate_refines cf tr Hw) as [tr' ->]. apply no_orphan_slot; assumption.
+Qed.
+
+(* ... so once the root has worked off the FIFO, a link that was dropped has no slot left *)
+Theorem dropped_link_has_no_slot_when_drained cf tr x l :
+  cf_follow cf = false -> cf_guard cf = true -> waits_only tr = true ->
+  links (b_st (brun cf tr)) l = LIdle -> rootq (b_st (brun cf tr)) = [] ->
+  ~ In (x, l) (upd (b_st (brun cf tr)) ++ sus (b_st (brun cf tr))).
+Proof.
+  intros Hf Hg Hw. destruct (bounded_gate_refines cf tr Hw) as [tr' ->]. intros Hl Hq.
+  apply idle_link_has_no_slot; try assumption. rewrite Hq. intros [].
+Qed.
+
+Theorem bounded_one_slot_per_link cf tr x1 x2 l :
+  cf_follow cf = false -> cf_guard cf = true -> waits_only tr = true ->
+  In (x1, l) (upd (b_st (brun cf tr)) ++ sus (b_st (brun cf tr))) ->
+  In (x2, l) (upd (b_st (brun cf tr)) ++ sus (b_st (brun cf tr))) -> x1 = x2.
+Proof.
+  intros Hf Hg Hw. destruct (bounded_gate_refines cf tr Hw) as [tr' ->]. apply one_slot_per_link; assumption.
+Qed.
+
+(* the drop itself, at any reachable-or-not state that keeps the marker inside the FIFO: the link is idle at
+   once (its component may link again), the Unsubscribe of its slot is on the FIFO - with a waiting sender when
+   there was no room - and nothing that was there before has been lost or overtaken *)
+Theorem drop_link_unsubscribe_in_flight cf b l x sb :
+  binv b -> links (b_st b) l = LConn x sb ->
+  let b' := bstep cf b (BDropLink l) in
+  links (b_st b') l = LIdle /\
+  rootq (b_st b') = rootq (b_st b) ++ [CUnsub x] /\
+  (b_room b = false -> b_in b' = b_in b /\ b_waiting b' = b_waiting b ++ [CUnsub x]).
+Proof.
+  intros [Hi _] Hl. cbv zeta. cbn [bstep]. rewrite b_after_send_st.
+  assert (Hq : rootq (step cf (b_st b) (ASendUnsub l)) = rootq (b_st b) ++ [CUnsub x]).
+  { cbn [step]. rewrite Hl. destruct (is_direct l); reflexivity. }
+  split; [|split].
+  - cbn [step]. rewrite Hl. destruct (is_direct l); cbn; unfold fupd; rewrite N.eqb_refl; reflexivity.
+  - exact Hq.
+  - intros Hr. unfold b_after_send. rewrite Hr, andb_false_r. cbn [b_in]. split; [reflexivity|].
+    unfold b_waiting. cbn [b_st b_in]. rewrite Hq, skipn_app.
+    replace (b_in b - length (rootq (b_st b)))%nat with O by lia. reflexivity.
+Qed.
+
+(* ---- the variant that hands the Unsubscribe over with try_send (seeded change C08-c2) ---- *)
+Theorem drop_try_send_refuted :
+  let cf := MkCfg 2 false true in
+  let tr := b_relink_schedule (BDropLinkTry 1) in
+  (* at the moment of the drop 16 commands are in the channel *)
+  b_in (brun cf (firstn 38 tr)) = 16%nat /\ nth_error tr 38 = Some (BDropLinkTry 1) /\
+  (* the slot of the dropped link stays, next to the slot of the new link of the same component *)
+  upd (b_st (brun cf tr)) = [(0, 1); (17, 1)] /\ rootq (b_st (brun cf tr)) = [] /\
+  (* and update 1 of the root gate is handed to component 1 twice *)
+  lseqs_of 1 0 (delivered (b_st (brun cf tr))) = [1; 1; 0] /\
+  ~ strictly_desc (lseqs_of 1 0 (delivered (b_st (brun cf tr)))).
+Proof.
+  cbv zeta. repeat split; try (vm_compute; reflexivity).
+  vm_compute. intros [H _]. discriminate H.
+Qed.
+
+(* the same schedule on the code as it is: the Unsubscribe waits for room, is handled before the Subscribe of
+   the new link, and update 1 arrives once *)
+Lemma drop_waits_example :
+  let cf := MkCfg 2 false true in
+  let tr := b_relink_schedule (BDropLink 1) in
+  waits_only tr = true /\
+  b_in (brun cf (firstn 39 tr)) = 16%nat /\ b_waiting (brun cf (firstn 39 tr)) = [CUnsub 0] /\
+  upd (b_st (brun cf tr)) = [(17, 1)] /\ rootq (b_st (brun cf tr)) = [] /\
+  lseqs_of 1 0 (delivered (b_st (brun cf tr))) = [1; 0].
+Proof. cbv zeta. repeat split; vm_compute; reflexivity. Qed.
